@@ -88,6 +88,7 @@ def program_strategy(draw, max_ops=30, removal_heavy=False):
         (1, st.fixed_dictionaries({"op": st.just("group"), "name": st.sampled_from(["G0", "G0", "H"])})),
         (2, st.fixed_dictionaries({"op": st.just("meta"), "data": idx, "k": st.integers(0, 9)})),
         (2, st.fixed_dictionaries({"op": st.just("empty_pg"), "hole": idx})),
+        (2, st.fixed_dictionaries({"op": st.just("save_hole"), "hole": idx})),
         (2, st.just({"op": "plain"})),
         (2, st.fixed_dictionaries({"op": st.just("plain_remove"), "who": idx})),
         (3, st.fixed_dictionaries({"op": st.just("reopen"), "same": st.sampled_from([False, True]),
@@ -114,6 +115,13 @@ def program_strategy(draw, max_ops=30, removal_heavy=False):
             second = dict(draw(data_op(first["op"])))
             first, second = {**first, "hole": 0, "name": shared}, {**second, "hole": 1, "name": shared}
             ops += [first, second]
+    if draw(st.integers(0, 4)) == 0:
+        # constructive prefix: a second group holding a copy of the first hole (the copy shares its data types), then a
+        # lazily re-opened session in which one of the two is removed, followed by the removal of an ordinary object
+        first = draw(data_op(draw(st.sampled_from(["depth", "interval"]))))
+        ops += [{**first, "hole": 0}, {"op": "group", "name": "H"}, {"op": "copy_hole", "hole": 0, "group": 1}, {"op": "plain"},
+                {"op": "reopen", "same": draw(st.booleans()), "lazy": True},
+                {"op": "remove_hole", "hole": draw(idx), "via": "ws"}, {"op": "plain_remove", "who": 0}]
     for _ in range(n_ops):
         ops.append(draw(draw(st.sampled_from(pool))))
         if ops[-1]["op"] == "reopen" and ops[-1]["lazy"] and draw(st.booleans()):
@@ -414,6 +422,17 @@ class ConcatRun:
         self.call(rec["kind"], setattr, data[0], "values", arr)
         rec["vals"] = exp
         self.note_shared(name, hole)
+        return True
+
+    def op_save_hole(self, op):
+        """An explicit workspace.save_entity(hole) on a hole that is already stored (nothing may change)."""
+        pick = self.pick(self.all_holes(), op["hole"])
+        if pick is None:
+            return False
+        grp, hole = pick
+        self.touched = {grp.uid}
+        self.call("Drillhole", self.ws().save_entity, self.ent(hole.uid))
+        self.res.label("save_hole:" + ("several-holes-in-group" if len(grp.holes) > 1 else "single"))
         return True
 
     def op_empty_pg(self, op):
